@@ -1,6 +1,7 @@
 (* C12 — Server-issued identifiers are unique and only move forward.
    Only statements, each closed by [exact] of a lemma proved in Proofs/, and Print Assumptions. *)
-From DV Require Import Base.Prelude Model.Persist Model.IDs Proofs.Persist Proofs.IDs Gen.Consts.
+From DV Require Import Base.Prelude Model.Persist Model.IDs Model.IDsR Proofs.Persist Proofs.IDs Proofs.IDsR Gen.Consts.
+From DV Require Import Gen.IdLocks Model.IdLocks Proofs.IdLocks.
 Local Open Scope N_scope.
 
 (* ---- mutation ids ---- *)
@@ -128,6 +129,101 @@ Theorem C12_label_reload_refuted :
   settled s = true /\ In 20 (l_present s) /\ snd (lstep s (LAlloc 1 1)) = Some (11, 11).
 Proof. exact label_reload_refuted. Qed.
 Print Assumptions C12_label_reload_refuted.
+
+(* ---- Round 4: label freshness across crashes and restarts, the repaired code (Model.IDsR) ---- *)
+(* The machine [rstep]: instances persist their maximum at creation (db6bd45, state l_fresh); an
+   ingest raises the maxima BEFORE its block is written and before it is acknowledged (f4ecbcf); the
+   Lock section of updateBlockMaxLabel never lowers MaxLabel[v] (5404b81).  Persistence assumption,
+   built into the machine and the only one: a Put that returned survives process death (crash events
+   keep every persisted field), a Put that did not happen leaves the old value.
+   For EVERY history of allocations, allocations killed after 0/1/2 of their Puts, ingests whose
+   per-block update tasks interleave in any order with everything else, tasks killed inside their Lock
+   section after 0/1/2 Puts, max-label updates (complete or killed after 0/1/2 Puts), idle crashes and
+   restarts -- without administrative repositioning -- a served allocation returns a range
+   b <= e <= 2^64-1 above every label present in the volume at any version (handed-out labels included). *)
+Theorem C12_label_fresh_all_histories : forall evs v n, r_no_reposition evs = true ->
+  let s := fst (rrun l_fresh evs) in
+  forall b e, snd (rstep s (RE (LAlloc v n))) = Some (b, e) ->
+  b <= e /\ e <= max_label /\ forall l, In l (l_present s) -> l < b.
+Proof. exact label_fresh_all_histories. Qed.
+Print Assumptions C12_label_fresh_all_histories.
+
+(* ... and over the same histories no label is handed out twice: the ranges are pairwise disjoint
+   and strictly increasing in issue order. *)
+Theorem C12_label_unique_all_histories : forall evs, r_no_reposition evs = true ->
+  ranges_increasing 0 (snd (rrun l_fresh evs)).
+Proof. exact label_unique_all_histories. Qed.
+Print Assumptions C12_label_unique_all_histories.
+
+(* Labels of the volume stay labels of the volume over every event (crashes included): the set the
+   two theorems above quantify over only grows. *)
+Theorem C12_label_present_monotone : forall s e l, In l (l_present s) -> In l (l_present (fst (rstep s e))).
+Proof. exact rstep_present_mono. Qed.
+Print Assumptions C12_label_present_monotone.
+
+(* Non-vacuity: a history with a kill inside an allocation after its first Put, a kill inside an
+   ingest's update after its first Put, an ingest completed, a restart; the allocation that follows is
+   served and is above the ingested labels. *)
+Example C12_label_fresh_all_histories_concrete :
+  let evs := [RE (LAlloc 1 5); RE (LAllocCrash 1 3 1); RE LRestart; RE (LIngest 1 [100; 40]);
+              RE (LBgRead 0); RE (LBgRead 1); RE (LBgWrite 1); RWriteCrash 0 1; RE LRestart;
+              RE (LIngest 2 [70]); RE (LBgRead 0); RE (LBgWrite 0); RSetMaxCrash 2 500 1; RE LRestart] in
+  r_no_reposition evs = true /\
+  let s := fst (rrun l_fresh evs) in
+  l_present s = [70; 40; 1; 2; 3; 4; 5] /\ snd (rstep s (RE (LAlloc 2 2))) = Some (501, 502) /\
+  snd (rrun l_fresh evs) = [(1, 5)].
+Proof. vm_compute. repeat split. Qed.
+
+(* What is left (finding C12-2): POST index / POST indices Put the label index FIRST and raise the
+   maximum afterwards (labelidx.go putLabelIndexAndMax, putProtoLabelIndices).  A process killed in
+   between leaves a label in the volume that no counter accounts for; it is handed out after the restart.
+   repo_patches/C12-2-fix.diff moves the update before the Put (then the request is an LSetMax followed by
+   the write, and the theorem above applies). *)
+Theorem C12_label_fresh_index_kill_refuted :
+  let s := fst (rrun l_fresh [RE (LAlloc 1 5)]) in
+  let s' := fst (rstep (r_index_killed s 1000) (RE LRestart)) in
+  l_up s' = true /\ In 1000 (l_present s') /\ snd (rstep s' (RE (LAlloc 1 1))) = Some (6, 6).
+Proof. exact label_fresh_index_kill_refuted. Qed.
+Print Assumptions C12_label_fresh_index_kill_refuted.
+
+(* ---- Round 4: the atomicity assumption of the machines, extracted from the source ---- *)
+(* Gen/IdLocks.v is rewritten from /repo on every run (harness/cmd/gen/gen_idlocks.go): for
+   repoManager.newInstanceID / newRepoID / newVersionID / newUUID, repoT.newMutationID and labelmap
+   newLabel / newLabels / updateMaxLabel / updateBlockMaxLabel, every control-flow path as the sequence of
+   mutex calls, accesses of the counter fields and persisting Puts.  On EVERY path of EVERY site: each
+   write of a counter happens while the site's mutex is held exclusively, each read while it is held; for
+   the sites the machines treat as one atomic event (all but the two update functions) reads are under the
+   exclusive lock too and all accesses lie in ONE critical section; where the Put is part of the event
+   (newInstanceID, newMutationID and all labelmap sites) the Put and the helper's reads are in that
+   section as well.  Removing a Lock, narrowing the section, moving an access or the Put out of it, or
+   downgrading Lock to RLock changes Gen/IdLocks.v and this statement stops computing to true. *)
+Theorem C12_id_counters_rmw_under_mutex : forallb path_ok id_site_paths = true.
+Proof. exact id_paths_ok. Qed.
+Print Assumptions C12_id_counters_rmw_under_mutex.
+
+(* the nine sites are in the table, each with a path that modifies its counter *)
+Theorem C12_id_sites_extracted : sites_present id_site_paths = true.
+Proof. exact id_sites_present. Qed.
+Print Assumptions C12_id_sites_extracted.
+
+(* the sites whose persisting Put is guarded by the mutex.  newRepoID / newVersionID / newUUID are NOT
+   among them: they call putNewIDs after releasing idMutex (the machine of Model.Persist has the Put as a
+   separate write for that reason; two concurrent allocators may Put their snapshots out of order). *)
+Theorem C12_persist_inside_section : persist_guarded id_site_paths = expected_persist_guarded.
+Proof. exact id_persist_guarded. Qed.
+Print Assumptions C12_persist_inside_section.
+
+(* what the obligation means, for any table: a write of a guarded location at position k of a path is
+   made with the mutex held exclusively *)
+Theorem C12_under_mutex_sound : forall mu locs strict evs ex sh k l,
+  under_mutex mu locs strict evs ex sh = true -> nth_error evs k = Some (IWrite l) -> smem l locs = true ->
+  held_at mu evs k ex = true.
+Proof. exact under_mutex_write_held. Qed.
+Print Assumptions C12_under_mutex_sound.
+
+(* non-vacuity: paths with a narrowed, removed or split critical section, or a Put outside it, fail *)
+Example C12_narrowed_lock_fails : narrowed_paths_fail.
+Proof. exact narrowed_lock_fails. Qed.
 
 (* Non-vacuity with the constants of the source: stride 100, first id one billion; an allocation
    sequence that crosses the stride boundary, dies exactly there after its write, restarts. *)
